@@ -191,7 +191,7 @@ fn engine_histories(ctx: &mut Ctx) {
             let pages = ["https://ads.net/", "https://sub.ads.net/p", "https://www.example.org/", "https://track.io/x", "https://x.b.co.uk/"];
             let mut queries_after_change = 0u64;
             for _ in 0..nops {
-                match r.below(20) {
+                match r.below(21) {
                     0..=6 => {
                         let q = r.pick(&reqs);
                         if let Ok(rq) = Request::new(&q.url, &q.source, q.rtype) {
@@ -305,6 +305,17 @@ fn engine_histories(ctx: &mut Ctx) {
                         e.deserialize(&buf).expect("deserialize own buffer");
                         h.state_changes += 1;
                     }
+                    18 => {
+                        // load a buffer that a twin engine serialized under some other tag set: the
+                        // rules are the same, the caller's enabled set must be kept
+                        let other_tags = pick_tags(&mut r);
+                        let mut twin = fresh(&rules, &BTreeSet::new(), debug, optimize);
+                        twin.use_tags(&other_tags);
+                        let buf = twin.serialize_raw().expect("serialize");
+                        history.push(format!("deserialize(buffer of the same rules serialized under tags {:?})", other_tags));
+                        e.deserialize(&buf).expect("deserialize twin buffer");
+                        h.state_changes += 1;
+                    }
                     17 => {
                         let new_opt = r.chance(1, 2);
                         history.push(format!("serialize_raw(); deserialize() into Engine::new({}) which replaces the engine", new_opt));
@@ -317,7 +328,7 @@ fn engine_histories(ctx: &mut Ctx) {
                         h.state_changes += 1;
                         let _ = &mut optimize; // the optimise flag travels inside the buffer
                     }
-                    _ => {
+                    19 | 20 | _ => {
                         // a burst of queries to warm the regex cache
                         for q in &reqs {
                             if let Ok(rq) = Request::new(&q.url, &q.source, q.rtype) {
